@@ -136,15 +136,24 @@ def dispatch (sig inst msig callTy : Ty) (impls : List Ty) : Option Nat :=
 
 /-! ### labels (`get_func_label`, `make_label`) -/
 
-/-- `FuncDesc`: the function, its monotype (if overloaded) and the concrete capture types -/
+/-- `FuncDesc`: the function (or lambda / task block), its monotype (if its own type is overloaded)
+    and, for a lambda or task, what it captures: the rendering of each capture's concrete type in
+    this instantiation (`capture_types_concrete`) and whether its declared type mentions a type
+    parameter (`capture_types[i].is_overloaded()`) -/
 structure Desc where
   func : Nat
-  mono : Option String        -- rendering of the monotype (`{monoty}`); `None` = not overloaded
-  captures : List String
+  mono : Option String
+  captures : List (String × Bool)
 deriving DecidableEq, Repr
 
+/-- `captures_overloaded`: ANY captured variable has an overloaded declared type -/
+def Desc.capturesOverloaded (d : Desc) : Bool := d.captures.any (·.2)
+
+/-- the function keeps its plain name: own type not overloaded and no overloaded capture -/
+def Desc.plain (d : Desc) : Bool := d.mono.isNone && !d.capturesOverloaded
+
 /-- a label: the hint and the process-wide counter value appended by `make_label`
-    (`None` for a non-overloaded function, whose label is its fully qualified name) -/
+    (`None` for a plain function, whose label is its fully qualified name) -/
 structure Label where
   hint : Nat × Option String × List String
   id : Option Nat
@@ -157,17 +166,17 @@ structure LabelState where
 def LabelState.find (st : LabelState) (d : Desc) : Option Label :=
   (st.map.find? (fun e => e.1 = d)).map (·.2)
 
-/-- `get_func_label` -/
+/-- `get_func_label`: `None if !captures_overloaded => func_name`, otherwise
+    `func_name__%monoty__%capture,types__#id` -/
 def getLabel (st : LabelState) (d : Desc) : Label × LabelState :=
   match st.find d with
   | some l => (l, st)
   | none =>
-    match d.mono with
-    | none =>
+    if d.plain then
       let l : Label := { hint := (d.func, none, []), id := none }
       (l, { st with map := (d, l) :: st.map })
-    | some m =>
-      let l : Label := { hint := (d.func, some m, d.captures), id := some st.counter }
+    else
+      let l : Label := { hint := (d.func, d.mono, d.captures.map (·.1)), id := some st.counter }
       (l, { map := (d, l) :: st.map, counter := st.counter + 1 })
 
 end Abra.Mono
